@@ -82,23 +82,23 @@ theorem loopFold_forall (f : Atom → Bool → Except Err (Bool × Bool)) (g : A
 theorem map_eq_bind_pure {α β : Type} (kw : Except Err α) (g : α → β) :
     kw.map g = (do let k ← kw; pure (g k)) := by cases kw <;> rfl
 
-theorem filter_core (c : Ctx) (p : Expr) (s : Seq) (h : ∀ c', eval p c' = Spec.sem pySum p c') :
+theorem filter_core (c : Ctx) (p : Expr) (s : Seq) (h : ∀ c', eval p c' = Spec.sem foSum p c') :
     predicateLoop (fun pos size x => eval p { c with item := some x, pos := pos, size := size }) (selectWithFocus s)
       = (do
           let kept ← keepWhere (fun t : Atom × Nat => do
-              let v ← Spec.sem pySum p { c with item := some t.1, pos := t.2, size := s.length }
+              let v ← Spec.sem foSum p { c with item := some t.1, pos := t.2, size := s.length }
               predicateTruth t.2 v) (positions s)
           pure (kept.map Prod.fst)) := by
   rw [selectWithFocus_eq, predicateLoop_eq]
   have : (fun t : Atom × Nat => (eval p { c with item := some t.1, pos := t.2, size := s.length }).bind (predicateTruth t.2))
-      = (fun t : Atom × Nat => (Spec.sem pySum p { c with item := some t.1, pos := t.2, size := s.length }).bind (predicateTruth t.2)) := by
+      = (fun t : Atom × Nat => (Spec.sem foSum p { c with item := some t.1, pos := t.2, size := s.length }).bind (predicateTruth t.2)) := by
     funext t; rw [h]
   rw [this]
   exact map_eq_bind_pure _ _
 
-theorem map_core (c : Ctx) (b : Expr) (s : Seq) (h : ∀ c', eval b c' = Spec.sem pySum b c') :
+theorem map_core (c : Ctx) (b : Expr) (s : Seq) (h : ∀ c', eval b c' = Spec.sem foSum b c') :
     mapLoop (fun pos size x => eval b { c with item := some x, pos := pos, size := size }) (selectWithFocus s)
-      = collect (fun t : Atom × Nat => Spec.sem pySum b { c with item := some t.1, pos := t.2, size := s.length })
+      = collect (fun t : Atom × Nat => Spec.sem foSum b { c with item := some t.1, pos := t.2, size := s.length })
           (positions s) := by
   rw [selectWithFocus_eq, mapLoop_eq]
   congr 1
@@ -148,7 +148,7 @@ theorem bind1_eq (c : Ctx) (vars : Vars) (x : Nat) (v : Atom) :
     bind1 { c with vars := vars } x v = { c with vars := (x, [v]) :: vars } := rfl
 
 mutual
-theorem eval_eq_sem : ∀ (e : Expr) (c : Ctx), eval e c = Spec.sem pySum e c
+theorem eval_eq_sem : ∀ (e : Expr) (c : Ctx), eval e c = Spec.sem foSum e c
   | .lit a, c => by simp [eval, Spec.sem]
   | .empty, c => by simp [eval, Spec.sem]
   | .var x, c => by simp only [eval, Spec.sem] <;> rfl
@@ -159,7 +159,7 @@ theorem eval_eq_sem : ∀ (e : Expr) (c : Ctx), eval e c = Spec.sem pySum e c
     simp only [eval, Spec.sem, eval_eq_sem a, eval_eq_sem b, commaSel]
   | .range a b, c => by
     simp only [eval, Spec.sem, eval_eq_sem a, eval_eq_sem b, rangeOperand_eq, rangeTo_eq]
-    cases Spec.sem pySum a c with
+    cases Spec.sem foSum a c with
     | error e => rfl
     | ok va =>
       simp only [bind, Except.bind]
@@ -170,17 +170,17 @@ theorem eval_eq_sem : ∀ (e : Expr) (c : Ctx), eval e c = Spec.sem pySum e c
         | none => rfl
         | some lo =>
           try dsimp only
-          cases Spec.sem pySum b c with
+          cases Spec.sem foSum b c with
           | error e => rfl
           | ok vb => rfl
   | .filter e p, c => by
     simp only [eval, Spec.sem, eval_eq_sem e]
-    cases Spec.sem pySum e c with
+    cases Spec.sem foSum e c with
     | error err => rfl
     | ok s => exact filter_core c p s (eval_eq_sem p)
   | .map a b, c => by
     simp only [eval, Spec.sem, eval_eq_sem a]
-    cases Spec.sem pySum a c with
+    cases Spec.sem foSum a c with
     | error err => rfl
     | ok s => exact map_core c b s (eval_eq_sem b)
   | .forE bs r, c => by
@@ -189,53 +189,53 @@ theorem eval_eq_sem : ∀ (e : Expr) (c : Ctx), eval e c = Spec.sem pySum e c
     have hbody : (fun (vars : Vars) (acc : Seq) => (do
           let v ← eval r { c with vars := vars }
           pure (acc ++ v, false) : Except Err (Seq × Bool)))
-        = fun vars acc => ((fun c' => Spec.sem pySum r c') { c with vars := vars }).map fun v => (acc ++ v, false) := by
-      funext vars acc; rw [eval_eq_sem r]; dsimp only; cases Spec.sem pySum r { c with vars := vars } <;> rfl
-    rw [hbody, for_eq bs c c.vars (fun c' => Spec.sem pySum r c') []]
-    cases Spec.semFor pySum bs { c with vars := c.vars } (fun c' => Spec.sem pySum r c') <;> rfl
+        = fun vars acc => ((fun c' => Spec.sem foSum r c') { c with vars := vars }).map fun v => (acc ++ v, false) := by
+      funext vars acc; rw [eval_eq_sem r]; dsimp only; cases Spec.sem foSum r { c with vars := vars } <;> rfl
+    rw [hbody, for_eq bs c c.vars (fun c' => Spec.sem foSum r c') []]
+    cases Spec.semFor foSum bs { c with vars := c.vars } (fun c' => Spec.sem foSum r c') <;> rfl
   | .someE bs t, c => by
     simp only [eval, Spec.sem]
     rw [iterProduct_eq_cartFold _ (selsOf_ne_nil bs c)]
     have hbody : (fun (vars : Vars) (_ : Bool) => (do
           let b ← ebv (← eval t { c with vars := vars })
           pure (b, b) : Except Err (Bool × Bool)))
-        = fun vars _ => ((fun c' => (Spec.sem pySum t c').bind Spec.ebv) { c with vars := vars }).map fun b => (b, b) := by
+        = fun vars _ => ((fun c' => (Spec.sem foSum t c').bind Spec.ebv) { c with vars := vars }).map fun b => (b, b) := by
       funext vars acc; rw [eval_eq_sem t]; dsimp only
-      cases Spec.sem pySum t { c with vars := vars } with
+      cases Spec.sem foSum t { c with vars := vars } with
       | error e => rfl
       | ok v => simp only [bind, Except.bind, ebv_eq]; cases Spec.ebv v <;> rfl
-    rw [hbody, some_eq bs c c.vars (fun c' => (Spec.sem pySum t c').bind Spec.ebv)]
-    cases Spec.semSome pySum bs { c with vars := c.vars } (fun c' => (Spec.sem pySum t c').bind Spec.ebv) <;> rfl
+    rw [hbody, some_eq bs c c.vars (fun c' => (Spec.sem foSum t c').bind Spec.ebv)]
+    cases Spec.semSome foSum bs { c with vars := c.vars } (fun c' => (Spec.sem foSum t c').bind Spec.ebv) <;> rfl
   | .everyE bs t, c => by
     simp only [eval, Spec.sem]
     rw [iterProduct_eq_cartFold _ (selsOf_ne_nil bs c)]
     have hbody : (fun (vars : Vars) (_ : Bool) => (do
           let b ← ebv (← eval t { c with vars := vars })
           pure (b, !b) : Except Err (Bool × Bool)))
-        = fun vars _ => ((fun c' => (Spec.sem pySum t c').bind Spec.ebv) { c with vars := vars }).map fun b => (b, !b) := by
+        = fun vars _ => ((fun c' => (Spec.sem foSum t c').bind Spec.ebv) { c with vars := vars }).map fun b => (b, !b) := by
       funext vars acc; rw [eval_eq_sem t]; dsimp only
-      cases Spec.sem pySum t { c with vars := vars } with
+      cases Spec.sem foSum t { c with vars := vars } with
       | error e => rfl
       | ok v => simp only [bind, Except.bind, ebv_eq]; cases Spec.ebv v <;> rfl
-    rw [hbody, every_eq bs c c.vars (fun c' => (Spec.sem pySum t c').bind Spec.ebv)]
-    cases Spec.semEvery pySum bs { c with vars := c.vars } (fun c' => (Spec.sem pySum t c').bind Spec.ebv) <;> rfl
+    rw [hbody, every_eq bs c c.vars (fun c' => (Spec.sem foSum t c').bind Spec.ebv)]
+    cases Spec.semEvery foSum bs { c with vars := c.vars } (fun c' => (Spec.sem foSum t c').bind Spec.ebv) <;> rfl
   | .fn1 f a, c => by
     simp only [eval, Spec.sem, eval_eq_sem a, applyFn1_eq]
-    cases Spec.sem pySum a c <;> rfl
+    cases Spec.sem foSum a c <;> rfl
   | .fn2 f a b, c => by
     cases f <;> simp only [eval, Spec.sem, eval_eq_sem a, eval_eq_sem b, applyFn2_eq, applyFn1_eq]
     case sum =>
-      cases Spec.sem pySum a c with
+      cases Spec.sem foSum a c with
       | error e => rfl
       | ok va => cases va <;> rfl
   | .fn3 f a b d, c => by
     cases f <;> simp only [eval, Spec.sem, eval_eq_sem a, eval_eq_sem b, eval_eq_sem d, applyFn3_eq]
   | .cmp op a b, c => by
     simp only [eval, Spec.sem, eval_eq_sem a, eval_eq_sem b]
-    exact cmp_core op c.doc (Spec.sem pySum a c) (Spec.sem pySum b c)
+    exact cmp_core op c.doc (Spec.sem foSum a c) (Spec.sem foSum b c)
   | .andE a b, c => by
     simp only [eval, Spec.sem, eval_eq_sem a, eval_eq_sem b]
-    cases Spec.sem pySum a c with
+    cases Spec.sem foSum a c with
     | error e => rfl
     | ok va =>
       simp only [bind, Except.bind, ebv_eq]
@@ -245,12 +245,12 @@ theorem eval_eq_sem : ∀ (e : Expr) (c : Ctx), eval e c = Spec.sem pySum e c
         cases ba
         · rfl
         · simp only [if_true]
-          cases Spec.sem pySum b c with
+          cases Spec.sem foSum b c with
           | error e => rfl
           | ok vb => simp only [ebv_eq]
   | .orE a b, c => by
     simp only [eval, Spec.sem, eval_eq_sem a, eval_eq_sem b]
-    cases Spec.sem pySum a c with
+    cases Spec.sem foSum a c with
     | error e => rfl
     | ok va =>
       simp only [bind, Except.bind, ebv_eq]
@@ -259,13 +259,13 @@ theorem eval_eq_sem : ∀ (e : Expr) (c : Ctx), eval e c = Spec.sem pySum e c
       | ok ba =>
         cases ba
         · simp only [Bool.false_eq_true, if_false]
-          cases Spec.sem pySum b c with
+          cases Spec.sem foSum b c with
           | error e => rfl
           | ok vb => simp only [ebv_eq]
         · rfl
   | .arith op a b, c => by
     simp only [eval, Spec.sem, eval_eq_sem a, eval_eq_sem b, arithOperand_eq]
-    cases Spec.sem pySum a c with
+    cases Spec.sem foSum a c with
     | error e => rfl
     | ok va =>
       simp only [bind, Except.bind]
@@ -276,7 +276,7 @@ theorem eval_eq_sem : ∀ (e : Expr) (c : Ctx), eval e c = Spec.sem pySum e c
         | none => rfl
         | some x =>
           try dsimp only
-          cases Spec.sem pySum b c with
+          cases Spec.sem foSum b c with
           | error e => rfl
           | ok vb =>
             try dsimp only
@@ -291,24 +291,24 @@ theorem eval_eq_sem : ∀ (e : Expr) (c : Ctx), eval e c = Spec.sem pySum e c
                 simp [arithAtoms_eq op x y kx ky, pure, Except.pure]
   | .ifE t a b, c => by
     simp only [eval, Spec.sem, eval_eq_sem t, eval_eq_sem a, eval_eq_sem b]
-    cases Spec.sem pySum t c with
+    cases Spec.sem foSum t c with
     | error e => rfl
     | ok vt =>
       simp only [bind, Except.bind, ebv_eq]
 
 theorem for_eq : ∀ (bs : Binds) (c : Ctx) (vars : Vars) (body : Ctx → R) (acc : Seq),
     cartFold (fun vars acc => (body { c with vars := vars }).map fun v => (acc ++ v, false)) (selsOf bs c) vars acc
-      = (Spec.semFor pySum bs { c with vars := vars } body).map fun r => (acc ++ r, false)
+      = (Spec.semFor foSum bs { c with vars := vars } body).map fun r => (acc ++ r, false)
   | .one x e, c, vars, body, acc => by
     simp only [selsOf, cartFold, Spec.semFor, eval_eq_sem e]
-    cases Spec.sem pySum e { c with vars := vars } with
+    cases Spec.sem foSum e { c with vars := vars } with
     | error err => rfl
     | ok items =>
       simp only [bind, Except.bind]
       exact loopFold_collect _ _ (fun v acc => rfl) items acc
   | .cons x e rest, c, vars, body, acc => by
     simp only [selsOf, cartFold, Spec.semFor, eval_eq_sem e]
-    cases Spec.sem pySum e { c with vars := vars } with
+    cases Spec.sem foSum e { c with vars := vars } with
     | error err => rfl
     | ok items =>
       simp only [bind, Except.bind]
@@ -316,17 +316,17 @@ theorem for_eq : ∀ (bs : Binds) (c : Ctx) (vars : Vars) (body : Ctx → R) (ac
 
 theorem some_eq : ∀ (bs : Binds) (c : Ctx) (vars : Vars) (test : Ctx → Except Err Bool),
     cartFold (fun vars (_ : Bool) => (test { c with vars := vars }).map fun b => (b, b)) (selsOf bs c) vars false
-      = (Spec.semSome pySum bs { c with vars := vars } test).map fun b => (b, b)
+      = (Spec.semSome foSum bs { c with vars := vars } test).map fun b => (b, b)
   | .one x e, c, vars, test => by
     simp only [selsOf, cartFold, Spec.semSome, eval_eq_sem e]
-    cases Spec.sem pySum e { c with vars := vars } with
+    cases Spec.sem foSum e { c with vars := vars } with
     | error err => rfl
     | ok items =>
       simp only [bind, Except.bind]
       exact loopFold_exists _ _ (fun v => rfl) items
   | .cons x e rest, c, vars, test => by
     simp only [selsOf, cartFold, Spec.semSome, eval_eq_sem e]
-    cases Spec.sem pySum e { c with vars := vars } with
+    cases Spec.sem foSum e { c with vars := vars } with
     | error err => rfl
     | ok items =>
       simp only [bind, Except.bind]
@@ -334,17 +334,17 @@ theorem some_eq : ∀ (bs : Binds) (c : Ctx) (vars : Vars) (test : Ctx → Excep
 
 theorem every_eq : ∀ (bs : Binds) (c : Ctx) (vars : Vars) (test : Ctx → Except Err Bool),
     cartFold (fun vars (_ : Bool) => (test { c with vars := vars }).map fun b => (b, !b)) (selsOf bs c) vars true
-      = (Spec.semEvery pySum bs { c with vars := vars } test).map fun b => (b, !b)
+      = (Spec.semEvery foSum bs { c with vars := vars } test).map fun b => (b, !b)
   | .one x e, c, vars, test => by
     simp only [selsOf, cartFold, Spec.semEvery, eval_eq_sem e]
-    cases Spec.sem pySum e { c with vars := vars } with
+    cases Spec.sem foSum e { c with vars := vars } with
     | error err => rfl
     | ok items =>
       simp only [bind, Except.bind]
       exact loopFold_forall _ _ (fun v => rfl) items
   | .cons x e rest, c, vars, test => by
     simp only [selsOf, cartFold, Spec.semEvery, eval_eq_sem e]
-    cases Spec.sem pySum e { c with vars := vars } with
+    cases Spec.sem foSum e { c with vars := vars } with
     | error err => rfl
     | ok items =>
       simp only [bind, Except.bind]
